@@ -10,7 +10,7 @@ ID = 'C14'
 LEVEL = 'exploration'
 BUDGET = {'quick': 150, 'thorough': 1800}
 CHUNK = 2
-RULE = ('Cases: unambiguous tables of 2..12 samples (a few per run of 13..48 samples and 700..5000 rows; all bases; constant rows, which the program pre-filters and adds back; '
+RULE = ('Cases: unambiguous tables of 2..12 samples (a few per run of 13..48 samples and 700..5000 rows or 3..12 samples and 12000..20000 rows; all bases; constant rows, which the program pre-filters and adds back; '
         'rows with gaps in every missingness pattern; duplicated samples; rows below a frequency threshold next to rows above '
         'it in >=3 samples) constructed through `ska build`, and planted-SNP genome sets.  `ska distance [--min-freq j/n or 0.3/0.45/0.6/0.85] '
         '[--allow-ambiguous] [--threads 1|2|4]` is compared with the model in exact rationals: SNPs = rows present in both and '
@@ -22,7 +22,7 @@ ASSUMPTIONS = ['tables hold only A/C/G/T and gaps (the statement is about files 
                'min-freq passed as a short decimal; exact rational used by the oracle']
 REQUIRED = {t: ['minfreq_drops_rows_with_3plus_samples', 'constant_rows', 'identical_sample_pairs', 'permutation_checked',
                 'threads:1', 'threads:2', 'threads:4', 'allow_ambiguous', 'pairs_checked',
-                'history:delete', 'history:merge', 'history_allow_ambiguous_minfreq_drops', 'large_tables'] for t in ('quick', 'thorough')}
+                'history:delete', 'history:merge', 'history_allow_ambiguous_minfreq_drops', 'large_tables', 'tables_over_8192_rows'] for t in ('quick', 'thorough')}
 
 
 def builds(tier):
@@ -39,8 +39,9 @@ def plan(tier, seed, rng, scale):
                       'seed': rng.getrandbits(32), 'kind': 'genomes' if i % 5 == 0 else 'table'})
     for i in range(int((6 if tier == 'quick' else 50) * max(scale, 0.25))):
         # many samples and thousands of rows: pair loops, chunked passes and filters beyond their small-input paths
-        descs.insert(20 + 7 * i, {'ns': rng.randint(13, 48), 'k': rng.choice([15, 31, 33]), 'seed': rng.getrandbits(32), 'kind': 'table',
-                                  'nrows': rng.choice([700, 2000, 5000])})
+        nr = [700, 2000, 5000, 12000, 20000, 12000][i % 6]
+        descs.insert(20 + 7 * i, {'ns': rng.randint(13, 48) if nr <= 5000 else rng.randint(3, 12), 'k': rng.choice([15, 31, 33]), 'seed': rng.getrandbits(32),
+                                  'kind': 'table', 'nrows': nr})
     for i, d in enumerate(descs):
         d['chk'] = (i % 6 == 0) and not d.get('nrows')
     return descs
@@ -198,6 +199,8 @@ def run_case(desc, ctx):
         G.ska_build(ctx, ctx.path('tp'), [fns[i] for i in perm], k, True, binary=b)
         if desc.get('nrows') and variant == 'rel':
             res.count('large_tables')
+            if desc['nrows'] > 8192:
+                res.count('tables_over_8192_rows')
         freqs = ['0'] + [('%.4f' % (j / ns)).rstrip('0').rstrip('.') for j in range(1, ns + 1) if (j * 10000) % ns == 0]
         freqs += ['0.3', '0.45', '0.6', '0.85']          # f*n not integral for most n: ceil matters
         settings = []
